@@ -11,3 +11,16 @@ fire("C66", "collection-init-adopts-callers-dict",
 silent("C66", "collection-copy-via-type-self",
        [(DR, "        \"\"\"Return a copy of the DecompCollection.\"\"\"\n        return DecompCollection(self._decomps)",
              "        \"\"\"Return a copy of the DecompCollection.\"\"\"\n        return type(self)(self._decomps)")])
+
+# --- R-C66-nocache
+_ADJ2 = "pennylane/ops/op_math/adjoint2.py"
+_NQ = "pennylane/devices/null_qubit.py"
+fire("C66", "adjoint-wrapped-rules-kept-in-module-level-dict",
+     (_ADJ2, "    wrapped_rules = DecompCollection(\n        [\n            _make_adjoint_decomp(rule)\n            for rule in list_decomps(abs_op.base)",
+             "    wrapped_rules = _WRAPPED.get(abs_op.base)\n    if wrapped_rules is None:\n      wrapped_rules = _WRAPPED[abs_op.base] = DecompCollection(\n        [\n            _make_adjoint_decomp(rule)\n            for rule in list_decomps(abs_op.base)"),
+     "R-C66-nocache", "_list_adjoint_decomps")
+fire("C66", "null_qubit-has-decomp-answer-memoised",
+     (_NQ, "def _op_has_decomp(op):\n", "@functools.lru_cache(maxsize=None)\ndef _op_has_decomp(op):\n"),
+     "R-C66-nocache", "_op_has_decomp")
+silent("C66", "adjoint-wrapped-rules-local-temporary",
+       [(_ADJ2, "    return custom_rules + wrapped_rules\n", "    tmp = {}\n    tmp[\"wrapped\"] = wrapped_rules\n    return custom_rules + tmp[\"wrapped\"]\n")])
